@@ -1175,7 +1175,8 @@ def rule_err_status(ctx, prop):
                         any(r[0] == "call" and r[2] == header for r in provenance(oc, t2["args"][0], through=None)):
                     e2 = bool_edge(oc, b2)
                     if e2 and e2[0] is not None and e2[1] is not None and e2[0] != e2[1] and oc.dominates(e2[0], rb) and \
-                            rb not in oc.reach_from(e2[1], avoid={e2[0]}) and oc.dominates(b2, errb):
+                            rb not in oc.reach_from(e2[1], avoid={e2[0]}) and oc.dominates(b2, errb) and \
+                            errb not in oc.reach_from(e2[0], avoid={rb}):        # .. and nothing else decides whether it runs
                         pre_raised = True
         # every Err edge in the closure: the received result, and the results of the closure's own fallible calls
         # (stdout writes): search for a path Err-arm -> loop header avoiding raisers
@@ -1251,7 +1252,8 @@ def rule_err_status(ctx, prop):
                                     any(r[0] == "call" and r[2] == wh for r in provenance(ff, t2["args"][0], through=None)):
                                 e2 = bool_edge(ff, b2)
                                 if e2 and e2[0] is not None and e2[1] is not None and e2[0] != e2[1] and ff.dominates(e2[0], rb) and \
-                                        rb not in ff.reach_from(e2[1], avoid={e2[0]}) and ff.dominates(b2, werr):
+                                        rb not in ff.reach_from(e2[1], avoid={e2[0]}) and ff.dominates(b2, werr) and \
+                                        werr not in ff.reach_from(e2[0], avoid={rb}):
                                     ahead = True
                     okw = inside or ahead
                 if rep.anchor(werr is not None, "Err arm of the walker item in format", cfg):
@@ -1772,4 +1774,34 @@ def rule_logger_filter(ctx, prop):
                           f"level filter: env_logger lets the later directive win, so `STYLUA_LOG=off` filters out error records, the "
                           f"format closure that stores exit status 2 never runs, and a parse error exits 0 with empty output",
                           f.loc(), cfg)
+    return rep
+
+
+def rule_ignore_match(ctx, prop):
+    """whether an explicitly given path is ignored is the ignore crate's own question: `matched_path_or_any_parents` strips the
+    ignore file's root once and climbs root-relative parents only"""
+    rep = Report(prop, "R-IGNOREMATCH", "path_is_stylua_ignored answers with Gitignore::matched_path_or_any_parents(path, false) of the path it "
+                                        "was given: no hand-written climb over path.ancestors() with Gitignore::matched (which also matches "
+                                        "directories above the ignore file's root)")
+    for cfg, prog in ctx.programs.items():
+        prog = _view(prog)
+        f = prog.fn("stylua", "path_is_stylua_ignored")
+        if not rep.anchor(f is not None, "stylua::path_is_stylua_ignored", cfg):
+            continue
+        fam = [f] + [g for g in prog.fns("stylua") if g.path.startswith(f.path + "::{closure")]
+        whole = [(g, b, t) for g in fam for b, t in g.calls() if re.search(r"Gitignore::matched_path_or_any_parents$", callee(t))]
+        single = [(g, b, t) for g in fam for b, t in g.calls() if re.search(r"Gitignore::matched$", callee(t))]
+        climbs = [(g, b, t) for g in fam for b, t in g.calls() if re.search(r"Path::(ancestors|parent)$", callee(t))]
+        ok = len(whole) == 1 and not single
+        if ok:
+            g, b, t = whole[0]
+            pr = provenance(g, t["args"][1]) if len(t["args"]) > 1 else set()
+            ok = any(r[0] == "arg" for r in pr) and not any(r[0] == "call" and re.search(r"canonicalize|ancestors|parent$|file_name", r[1]) for r in pr)
+        rep.inst(f"{f.key} verdict = matched_path_or_any_parents(path)", {"whole": len(whole), "single_level": len(single), "climbs": len(climbs)}, cfg, ok=ok)
+        if not ok:
+            how = "Gitignore::matched over " + ("path.ancestors()" if climbs else "single paths") if single else "a different path / several calls"
+            rep.violation(f"{f.key} ignore-verdict-not-from-matched_path_or_any_parents",
+                          f"path_is_stylua_ignored decides through {how}: Gitignore::matched does not strip the ignore file's root, so for "
+                          f"ancestors above the root an unanchored pattern (`build/`) matches a same-named directory outside the project and "
+                          f"an explicitly named file that no rule excludes is skipped (exit 0, nothing formatted)", f.loc(), cfg)
     return rep
